@@ -16,8 +16,16 @@ WHAT = "IoosQc.C18_isolation / C18_alone (C18.holds: results with failing entrie
 FAULTS = ["unknown_module", "unknown_test", "bad_params", "missing_input", "absent_stream", "raises"]
 
 
-def collected(fe, tab, ctxs, intern):
-    res = sc.run_frontend(fe, tab, sc.config_dict(ctxs))
+def collected(fe, tab, ctxs, intern, second_run=False):
+    """Collected results of a run; with `second_run`, of the SECOND run of the same stream and Config objects."""
+    if second_run:
+        from ioos_qc.config import Config
+        with warnings.catch_warnings():
+            warnings.simplefilter("ignore")
+            cobj = Config(sc.config_dict(ctxs))
+        _, res = sc.run_frontend(fe, tab, cobj, twice=True)
+    else:
+        res = sc.run_frontend(fe, tab, sc.config_dict(ctxs))
     with warnings.catch_warnings():
         warnings.simplefilter("ignore")
         lst = collect_results(res, how="list")
@@ -111,7 +119,9 @@ def run(out: Outcome, drv):
             intern = {}
             case = {"frontend": fe, "table": tab, "contexts_with_faults": faulty, "faults": placed}
             try:
-                obs, nd, obs_d = collected(fe, tab, faulty, intern)
+                # every other case observes the SECOND run of the same stream / Config objects: what a failing entry
+                # left behind in the first run must not matter
+                obs, nd, obs_d = collected(fe, tab, faulty, intern, second_run=(len(reqs) // 2) % 2 == 1)
             except Exception as e:  # noqa: BLE001
                 out.record(case, True, [f"fe:{fe}", "run_error"])
                 out.violation(f"{WHAT}: run with failing entries did not complete on {fe}: {type(e).__name__}: {e}",
